@@ -1,4 +1,355 @@
+//! C15 — gamut-bounded cylindrical spaces stay inside the RGB gamut.
+//! Forward: a cylinder grid (every hue step, every sector edge ± ulp; saturation-like and
+//! lightness-like components on a grid that includes both bounds) of HSL, HSV, HWB (for every
+//! RGB standard), Okhsl, Okhsv, Okhwb and HSLuv must convert into RGB components in [0,1]±eps.
+//! Reverse: every in-gamut RGB colour (all 2^24 8-bit sRGB colours in the thorough tier) must
+//! convert into those spaces within their bounds and back to the same RGB colour.
+use pg::{Graph, Kind};
+use pv::fl::Fl;
+use pv::{json, Collector, Ctx, Mode, Tier, Value};
+
+fn to64<T: Fl>(v: [T; 3]) -> [f64; 3] {
+    [v[0].to64(), v[1].to64(), v[2].to64()]
+}
+fn hex<T: Fl>(v: &[T]) -> Vec<String> {
+    v.iter().map(|x| format!("{:#x}", x.bits64())).collect()
+}
+
+/// "a small tolerance". The geometric spaces are exact up to rounding. HSLuv and the Ok spaces
+/// are *approximations of the sRGB gamut by published algorithms* (C02 shows that palette
+/// follows those algorithms to 1e-5), so their tolerance is the accuracy of the published
+/// method with 2x slack, measured on the pinned tree:
+/// * HSLuv bounds the gamut with its own sRGB matrix (white x=0.3127, y=0.3290), 1.6e-4 away
+///   from palette's: 1.5e-4 out of gamut in linear light = 2.0e-3 in an encoded component next
+///   to zero (slope 12.92); saturation of in-gamut colours up to 100.048;
+/// * Okhsl/Okhsv/Okhwb (one Halley step from a polynomial guess): 2.5e-3 out of gamut at
+///   s = 1, saturation of in-gamut colours up to 1.0115 (blue region), round trip through the
+///   red-primary hue loses 2.4e-3 in f32.
+/// The discontinuity at the blue primary proper is classified `@ok-blue-cusp` (known finding).
+struct Tol {
+    forward: f64,
+    bounds: f64,
+    roundtrip: f64,
+}
+fn tols<T: Fl>(k: &Kind) -> Tol {
+    let f32_ = T::NAME == "f32";
+    match k {
+        Kind::Okhsl | Kind::Okhsv | Kind::Okhwb => Tol { forward: 5e-3, bounds: 2.3e-2, roundtrip: if f32_ { 5e-3 } else { 2e-5 } },
+        Kind::Hsluv(_) => Tol { forward: 4e-3, bounds: 1e-3, roundtrip: if f32_ { 2e-4 } else { 2e-5 } },
+        _ => Tol { forward: if f32_ { 2e-6 } else { 1e-12 }, bounds: if f32_ { 1e-4 } else { 1e-12 } /* HSL saturation is d / (2 - max - min): next to white f32 rounding is amplified by 1/(2 - sum) <= 128 on the 8-bit grid */, roundtrip: if f32_ { 2e-5 } else { 1e-10 } },
+    }
+}
+fn eps_out_of_gamut<T: Fl>(k: &Kind) -> f64 {
+    tols::<T>(k).forward
+}
+fn tol_roundtrip<T: Fl>(k: &Kind) -> f64 {
+    tols::<T>(k).roundtrip
+}
+
+fn is_cyl(k: &Kind) -> bool {
+    matches!(k, Kind::Hsl(_) | Kind::Hsv(_) | Kind::Hwb(_) | Kind::Okhsl | Kind::Okhsv | Kind::Okhwb | Kind::Hsluv(_))
+}
+/// the RGB nodes of the graph that a cylindrical node is bounded by (same spec; for the Ok
+/// spaces and HSLuv: sRGB, encoded and linear)
+fn rgb_partners<T>(g: &Graph<T>, k: &Kind) -> Vec<usize> {
+    let spec = k.gamut().expect("gamut");
+    (0..g.n())
+        .filter(|&i| match g.nodes[i].kind {
+            Kind::Rgb(s) => {
+                if matches!(k, Kind::Hsl(_) | Kind::Hsv(_) | Kind::Hwb(_)) {
+                    s == spec
+                } else {
+                    s.prim == spec.prim && s.wp == spec.wp && (s.tf == spec.tf || s.tf == pv::refmodel::tf::Tf::Linear)
+                }
+            }
+            _ => false,
+        })
+        .collect()
+}
+
+fn cyl_grid<T: Fl>(k: &Kind, hue_step: f64) -> Vec<[T; 3]> {
+    let mut hues: Vec<T> = vec![];
+    let mut h = 0.0;
+    while h < 360.0 {
+        hues.push(T::from64(h));
+        h += hue_step;
+    }
+    for e in 0..=12 {
+        let t = T::from64(e as f64 * 30.0);
+        hues.push(t.up());
+        hues.push(t.down());
+    }
+    hues.extend([T::from64(pv::colorkind::OK_BLUE_CUSP_HUE), T::from64(pv::colorkind::OK_BLUE_CUSP_HUE - 1e-4), T::from64(-180.0), T::from64(720.0)]);
+    let mut unit: Vec<f64> = vec![0.0, 1e-9, 1.0 - 1e-9, 1.0];
+    for i in 1..20 {
+        unit.push(i as f64 * 0.05);
+    }
+    let scale = if matches!(k, Kind::Hsluv(_)) { 100.0 } else { 1.0 };
+    let mut out = vec![];
+    for &hh in &hues {
+        for &a in &unit {
+            for &b in &unit {
+                if matches!(k, Kind::Hwb(_) | Kind::Okhwb) && a + b > 1.0 {
+                    continue;
+                }
+                out.push([hh, T::from64(a * scale), T::from64(b * scale)]);
+            }
+        }
+    }
+    out
+}
+
+fn hue_class(k: &Kind, v: [f64; 3]) -> &'static str {
+    if k.is_ok_cyl() && (v[0].rem_euclid(360.0) - pv::colorkind::OK_BLUE_CUSP_HUE).abs() < 0.01 {
+        "@ok-blue-cusp"
+    } else {
+        ""
+    }
+}
+
+fn forward<T: Fl>(ctx: &Ctx, g: &Graph<T>, hue_step: f64, total: &mut Collector) {
+    let sub = format!("forward/{}/{}", g.name, T::NAME);
+    if !ctx.wants(&sub) {
+        return;
+    }
+    let cyls: Vec<usize> = (0..g.n()).filter(|&i| is_cyl(&g.nodes[i].kind)).collect();
+    let nch = 32usize;
+    let cyls_ref = &cyls;
+    let cc = pv::par::run_chunks(cyls.len() * nch, |ci, c| {
+        let a = cyls_ref[ci / nch];
+        let ka = g.nodes[a].kind;
+        let grid = cyl_grid::<T>(&ka, hue_step);
+        let partners = rgb_partners(g, &ka);
+        let eps = eps_out_of_gamut::<T>(&ka);
+        let part = ci % nch;
+        let (lo, hi) = (grid.len() * part / nch, grid.len() * (part + 1) / nch);
+        let (mut st, mut tr) = (0u64, 0u64);
+        for v in &grid[lo..hi] {
+            st += 1;
+            for &b in &partners {
+                let Some(f) = g.unc[a][b] else { continue };
+                tr += 1;
+                let mk = |obs: Value| json!({"sub": "forward", "group": g.name, "float": T::NAME, "path": [g.nodes[a].name, g.nodes[b].name], "input": hex(v), "value": to64(*v), "observed": obs, "expected": {"components in": [-eps, 1.0 + eps]}});
+                match pv::catch(|| f(*v)) {
+                    Err(msg) => c.violation(&format!("C15/forward/{}/{}/{}->{}/panic", g.name, T::NAME, g.nodes[a].name, g.nodes[b].name), 1.0, || mk(json!({"panic": msg}))),
+                    Ok(r) => {
+                        let r64 = to64(r);
+                        let mut excess: f64 = 0.0;
+                        for x in r64 {
+                            let e = if x.is_nan() { f64::NAN } else { (-x).max(x - 1.0).max(0.0) };
+                            if e.is_nan() || e > excess {
+                                excess = e;
+                            }
+                        }
+                        if excess <= eps {
+                            c.ratio(&format!("forward-excess/{}", g.nodes[a].name.split('<').next().unwrap_or("")), excess / eps, || mk(json!({"rgb": r64, "excess": excess})));
+                        } else {
+                            c.violation(&format!("C15/forward/{}/{}/{}->{}/out-of-gamut{}", g.name, T::NAME, g.nodes[a].name, g.nodes[b].name, hue_class(&ka, to64(*v))), excess, || mk(json!({"rgb": r64, "excess": pv::report::fnum(excess)})));
+                        }
+                        c.outcome(r[0].bits64() ^ r[1].bits64().rotate_left(21) ^ r[2].bits64().rotate_left(42));
+                    }
+                }
+            }
+        }
+        c.add(&sub, st, tr, tr, st);
+        c.sample(pv::splitmix(ci as u64), || json!({"group": g.name, "float": T::NAME, "node": g.nodes[a].name, "value": to64(grid[lo])}));
+    });
+    total.merge(cc);
+    total.exhaustive(&sub, true, &format!("{} cylindrical nodes x hue every {}° + every 30° edge ± ulp + blue cusp x 23^2 (saturation-like, lightness-like) incl. both bounds -> their RGB nodes", cyls.len(), hue_step));
+}
+
+fn reverse<T: Fl>(ctx: &Ctx, g: &Graph<T>, levels: u32, total: &mut Collector) {
+    let sub = format!("reverse/{}/{}", g.name, T::NAME);
+    if !ctx.wants(&sub) {
+        return;
+    }
+    let n = g.n();
+    let rgbs: Vec<usize> = (0..n).filter(|&i| matches!(g.nodes[i].kind, Kind::Rgb(_))).collect();
+    // pairs (rgb node, cylindrical node bounded by it)
+    let mut pairs: Vec<(usize, usize)> = vec![];
+    for &r in &rgbs {
+        for c in 0..n {
+            if is_cyl(&g.nodes[c].kind) && rgb_partners(g, &g.nodes[c].kind).contains(&r) && g.unc[r][c].is_some() && g.unc[c][r].is_some() {
+                pairs.push((r, c));
+            }
+        }
+    }
+    let nl = levels as usize;
+    let pairs_ref = &pairs;
+    let cc = pv::par::run_chunks(pairs.len() * nl, |ci, c| {
+        let (r, k) = pairs_ref[ci / nl];
+        let ri = (ci % nl) as u32;
+        let kk = g.nodes[k].kind;
+        let (fwd, back) = (g.unc[r][k].unwrap(), g.unc[k][r].unwrap());
+        let eps = tols::<T>(&kk).bounds;
+        let tol = tol_roundtrip::<T>(&kk);
+        let scale = if matches!(kk, Kind::Hsluv(_)) { 100.0 } else { 1.0 };
+        let q = (levels - 1) as f64;
+        let (mut st, mut tr) = (0u64, 0u64);
+        for gi in 0..levels {
+            for bi in 0..levels {
+                let v = [T::from64(ri as f64 / q), T::from64(gi as f64 / q), T::from64(bi as f64 / q)];
+                st += 1;
+                tr += 2;
+                let xyz = g.nodes[r].kind.to_xyz(to64(v));
+                let cls = if kk.is_ok_cyl() && pv::colorkind::on_ok_blue_cusp(xyz) { "@ok-blue-cusp" } else { "" };
+                let mk = |what: &str, obs: Value, exp: Value| json!({"sub": "reverse", "what": what, "group": g.name, "float": T::NAME, "path": [g.nodes[r].name, g.nodes[k].name], "input": hex(&v), "value": to64(v), "observed": obs, "expected": exp});
+                let res = pv::catch(|| {
+                    let m = fwd(v);
+                    (m, back(m))
+                });
+                match res {
+                    Err(msg) => c.violation(&format!("C15/reverse/{}/{}/{}->{}/panic", g.name, T::NAME, g.nodes[r].name, g.nodes[k].name), 1.0, || mk("convert", json!({"panic": msg}), json!("no panic"))),
+                    Ok((m, b)) => {
+                        let m64 = to64(m);
+                        // within the bounds of the space (saturation-like and lightness-like components)
+                        let mut excess: f64 = 0.0;
+                        for i in 1..3 {
+                            let x = m64[i] / scale;
+                            let e = if x.is_nan() { f64::NAN } else { (-x).max(x - 1.0).max(0.0) };
+                            if e.is_nan() || e > excess {
+                                excess = e;
+                            }
+                        }
+                        if matches!(kk, Kind::Hwb(_) | Kind::Okhwb) {
+                            let e = (m64[1] + m64[2] - 1.0).max(0.0);
+                            if e > excess {
+                                excess = e;
+                            }
+                        }
+                        if excess <= eps {
+                            c.ratio(&format!("reverse-bounds/{}", g.nodes[k].name.split('<').next().unwrap_or("")), excess / eps, || mk("bounds", json!({"result": m64, "excess": excess}), json!(null)));
+                        } else {
+                            // saturation at (next to) white and black is a ratio of vanishing quantities
+                            let lum = xyz[1];
+                            let c2 = if !cls.is_empty() { cls } else if lum >= 0.9 { "@near-white" } else if lum <= 1e-3 { "@near-black" } else { "" };
+                            c.violation(&format!("C15/reverse-bounds/{}/{}/{}->{}/out-of-bounds{}", g.name, T::NAME, g.nodes[r].name, g.nodes[k].name, c2), excess, || mk("in-gamut RGB -> cylindrical space: component outside its documented bounds", json!({"result": m64, "excess": pv::report::fnum(excess)}), json!({"tol": eps})));
+                        }
+                        // and back to the same RGB colour
+                        let b64 = to64(b);
+                        let v64 = to64(v);
+                        let mut d: f64 = 0.0;
+                        for i in 0..3 {
+                            let e = (b64[i] - v64[i]).abs();
+                            if e.is_nan() || e > d {
+                                d = e;
+                            }
+                        }
+                        if d <= tol {
+                            c.ratio(&format!("reverse-roundtrip/{}", g.nodes[k].name.split('<').next().unwrap_or("")), d / tol, || mk("roundtrip", json!({"back": b64}), json!(null)));
+                        } else {
+                            c.violation(&format!("C15/reverse-roundtrip/{}/{}/{}->{}/{}{}", g.name, T::NAME, g.nodes[r].name, g.nodes[k].name, if d.is_nan() { "NaN" } else { "finite-off" }, cls), d, || mk("RGB -> cylindrical space -> RGB", json!({"via": m64, "back": b64, "err": pv::report::fnum(d)}), json!({"back": v64, "tol": tol})));
+                        }
+                        c.outcome(m[0].bits64() ^ m[1].bits64().rotate_left(21) ^ m[2].bits64().rotate_left(42));
+                    }
+                }
+            }
+        }
+        c.add(&sub, st, tr, 2 * st, st);
+        if ri % 37 == 0 {
+            c.sample(pv::splitmix(ci as u64), || json!({"group": g.name, "float": T::NAME, "rgb_node": g.nodes[r].name, "space": g.nodes[k].name, "red_level": ri}));
+        }
+    });
+    total.merge(cc);
+    total.exhaustive(&sub, true, &format!("{} (RGB node, cylindrical node) pairs x the complete {}^3 grid of RGB levels k/{} (256: all 2^24 8-bit colours)", pairs.len(), levels, levels - 1));
+}
+
+macro_rules! with_graph {
+    ($group:expr, $float:expr, |$g:ident| $body:expr) => {
+        match ($group, $float) {
+            ("D65-core", "f32") => { let $g = pga::d65_f32(); $body }
+            ("D65-core", "f64") => { let $g = pgb::d65_f64(); $body }
+            ("D65-cylindrical", "f32") => { let $g = pgc::d65cyl_f32(); $body }
+            ("D65-cylindrical", "f64") => { let $g = pgc::d65cyl_f64(); $body }
+            ("D50", "f32") => { let $g = pgd::d50_f32(); $body }
+            ("D50", "f64") => { let $g = pgd::d50_f64(); $body }
+            ("DCI", "f32") => { let $g = pgd::dci_f32(); $body }
+            ("DCI", "f64") => { let $g = pgd::dci_f64(); $body }
+            (g, f) => { eprintln!("unknown graph {g}/{f}"); std::process::exit(3) }
+        }
+    };
+}
+
+fn replay(c: &mut Collector, rep: &Value) {
+    let case = &rep["case"];
+    let group = case["group"].as_str().unwrap_or("").to_string();
+    let float = case["float"].as_str().unwrap_or("").to_string();
+    let path: Vec<String> = case["path"].as_array().map(|a| a.iter().map(|x| x.as_str().unwrap_or("").to_string()).collect()).unwrap_or_default();
+    let b: Vec<u64> = case["input"].as_array().map(|a| a.iter().map(|x| u64::from_str_radix(x.as_str().unwrap_or("0").trim_start_matches("0x"), 16).unwrap_or(0)).collect()).unwrap_or_default();
+    let sig = rep["signature"].as_str().unwrap_or("C15/replay").to_string();
+    let is_fwd = case["sub"] == "forward";
+    fn go<T: Fl>(g: &Graph<T>, path: &[String], b: &[u64], is_fwd: bool, sig: &str, case: &Value, c: &mut Collector) {
+        let (ia, ib) = (g.index(&path[0]).expect("node"), g.index(&path[1]).expect("node"));
+        let v = [T::from_bits64(b[0]), T::from_bits64(b[1]), T::from_bits64(b[2])];
+        let f = g.unc[ia][ib].expect("edge");
+        let m = pv::catch(|| f(v));
+        println!("{} {:?} -> {} {:?}", path[0], to64(v), path[1], m.as_ref().map(|x| to64(*x)));
+        let Ok(m) = m else {
+            c.violation(sig, 1.0, || case.clone());
+            return;
+        };
+        if is_fwd {
+            let eps = eps_out_of_gamut::<T>(&g.nodes[ia].kind);
+            if to64(m).iter().any(|x| !(*x >= -eps && *x <= 1.0 + eps)) {
+                c.violation(sig, 1.0, || case.clone());
+            }
+        } else {
+            let kk = g.nodes[ib].kind;
+            let scale = if matches!(kk, Kind::Hsluv(_)) { 100.0 } else { 1.0 };
+            let eps = tols::<T>(&kk).bounds;
+            let m64 = to64(m);
+            let oob = (1..3).any(|i| !(m64[i] / scale >= -eps && m64[i] / scale <= 1.0 + eps));
+            let back = pv::catch(|| g.unc[ib][ia].expect("edge")(m));
+            println!("back {:?}", back.as_ref().map(|x| to64(*x)));
+            let bad_rt = match back {
+                Ok(bk) => (0..3).any(|i| !((bk[i].to64() - v[i].to64()).abs() <= tol_roundtrip::<T>(&kk))),
+                Err(_) => true,
+            };
+            if (sig.contains("reverse-bounds") && oob) || (sig.contains("reverse-roundtrip") && bad_rt) {
+                c.violation(sig, 1.0, || case.clone());
+            }
+        }
+    }
+    with_graph!(group.as_str(), float.as_str(), |g| go(&g, &path, &b, is_fwd, &sig, case, c));
+}
+
 fn main() {
-    eprintln!("C15: check not built yet");
-    std::process::exit(3);
+    pv::main_guard(real_main)
+}
+
+fn real_main() -> i32 {
+    let (ctx, mode) = Ctx::from_args("C15");
+    if let Mode::Replay(rep) = mode {
+        let mut c = Collector::new();
+        replay(&mut c, &rep);
+        return ctx.finish_replay(c);
+    }
+    let mut total = Collector::new();
+    let quick = ctx.tier == Tier::Quick;
+    let hue_step = if quick { 1.0 } else { 0.25 };
+    forward(&ctx, &pga::d65_f32(), hue_step, &mut total);
+    forward(&ctx, &pgb::d65_f64(), hue_step, &mut total);
+    forward(&ctx, &pgc::d65cyl_f32(), hue_step, &mut total);
+    forward(&ctx, &pgc::d65cyl_f64(), hue_step, &mut total);
+    forward(&ctx, &pgd::d50_f32(), hue_step, &mut total);
+    forward(&ctx, &pgd::d50_f64(), hue_step, &mut total);
+    forward(&ctx, &pgd::dci_f32(), hue_step, &mut total);
+    forward(&ctx, &pgd::dci_f64(), hue_step, &mut total);
+    // reverse: complete 8-bit cube for the sRGB-rooted graph in the thorough tier
+    let lv_main = if quick { 52 } else { 256 };
+    let lv_other = if quick { 18 } else { 86 };
+    reverse(&ctx, &pga::d65_f32(), lv_main, &mut total);
+    reverse(&ctx, &pgb::d65_f64(), lv_main, &mut total);
+    reverse(&ctx, &pgc::d65cyl_f32(), lv_other, &mut total);
+    reverse(&ctx, &pgc::d65cyl_f64(), lv_other, &mut total);
+    reverse(&ctx, &pgd::d50_f32(), lv_other, &mut total);
+    reverse(&ctx, &pgd::d50_f64(), lv_other, &mut total);
+    reverse(&ctx, &pgd::dci_f32(), lv_other, &mut total);
+    reverse(&ctx, &pgd::dci_f64(), lv_other, &mut total);
+    ctx.finish(
+        total,
+        "model_checking",
+        "states = cylinder grid points (hue x saturation-like x lightness-like, bounds included) per cylindrical node, and RGB grid colours (complete 8-bit cube for the sRGB graph in the thorough tier) per (RGB node, cylindrical node) pair; transitions = conversions executed; traces = bound / round-trip predictions compared; every state is non-trivial",
+        &["tolerances (fn tols): geometric spaces exact up to rounding (1e-12 f64 / 2e-6 f32); HSLuv and the Ok spaces: accuracy of the published gamut approximation with 2x slack (forward 4e-3 / 5e-3, bounds 1e-3 / 2.3e-2)", "that palette follows the published Ok / HSLuv algorithms is C02's claim, not this check's"],
+    )
 }
